@@ -211,7 +211,9 @@ func init() {
 // side, len(dst) >= len(src) is proven from slice bounds, make sizes and the dominating tests (copy silently truncates, so an
 // object of n bytes copied into a window of n-1 keeps its old last byte). Not-decided copies are frozen per function in
 // baselines/copies.json; growth is reported.
-func copyCompleteRule(c *Ctx, r *Result, rule string) {
+func copyCompleteRule(c *Ctx, r *Result, rule string) { copyCompleteRuleScoped(c, r, rule, nil) }
+
+func copyCompleteRuleScoped(c *Ctx, r *Result, rule string, scope func(string) bool) {
 	readers := c.readerSet(r)
 	per := map[string][]undecidedItem{}
 	n := 0
@@ -221,6 +223,9 @@ func copyCompleteRule(c *Ctx, r *Result, rule string) {
 		}
 		pk := shortPkg(fnPkgPath(fn))
 		if pk != "hdf5" && pk != "core" && pk != "structures" && pk != "writer" {
+			continue
+		}
+		if scope != nil && !scope(c.Name(fn)) {
 			continue
 		}
 		var fb *FB
@@ -244,10 +249,13 @@ func copyCompleteRule(c *Ctx, r *Result, rule string) {
 			per[c.Name(fn)] = append(per[c.Name(fn)], undecidedItem{c.InstrPos(call), "copy: len(dst) = " + fb.linString(d) + " is not shown to be >= len(src) = " + fb.linString(s)})
 		})
 	}
-	if n < 40 {
+	if (scope == nil && n < 40) || n < 2 {
 		r.Shortfall(c, rule, fmt.Sprintf("%s: only %d copy sites examined on the writing side", rule, n))
 	}
+	r.Notef("%s: %d copy sites examined", rule, n)
+	baselineReadOnly = scope != nil
 	r.ApplyBaselineFile(verifDirGlobal, "copies", rule, "possibly-truncating-copy", per)
+	baselineReadOnly = false
 }
 
 func init() {
@@ -901,4 +909,32 @@ func c06chunkOrigin(c *Ctx, r *Result, rule string) {
 func init() {
 	registry["C06"].Meta.Rules["C06.11"] = "a chunk that could not be decoded fails, it is not made to fit: in readChunkedData the bytes handed to the placement step are, on every path, the buffer the file read filled or the result of ApplyFilters - never a buffer made afterwards (zero-padding to the nominal size defeats the placement step's length test, the only thing that turns a chunk still encoded by an unsupported optional filter into an error)"
 	registry["C06"].Rules = append(registry["C06"].Rules, func(c *Ctx, r *Result) { c06chunkOrigin(c, r, "C06.11") })
+}
+
+// field-width and copy-completeness obligations shared with the properties that own the code
+func init() {
+	pre := func(prefixes ...string) func(string) bool {
+		return func(n string) bool {
+			for _, p := range prefixes {
+				if strings.HasPrefix(n, p) {
+					return true
+				}
+			}
+			return false
+		}
+	}
+	share := func(prop, idN, idC, what string, scope func(string) bool) {
+		reg := registry[prop]
+		if idN != "" {
+			reg.Meta.Rules[idN] = "values written into narrower fields fit them, in " + what + ": every conversion of a non-constant integer to a narrower unsigned type has its operand proven within the target type (and non-negative); not-decided conversions are frozen per function and only growth is reported (C05.11 restricted to this code)"
+			reg.Rules = append(reg.Rules, func(c *Ctx, r *Result) { narrowingRuleScoped(c, r, idN, scope) })
+		}
+		reg.Meta.Rules[idC] = "content is copied into its place completely, in " + what + ": at every copy(dst, src) len(dst) >= len(src) is proven; not-decided copies are frozen per function and only growth is reported (C02.11 restricted to this code)"
+		reg.Rules = append(reg.Rules, func(c *Ctx, r *Result) { copyCompleteRuleScoped(c, r, idC, scope) })
+	}
+	share("C11", "C11.10", "C11.11", "the metadata encoders of package core and the superblock/object header writers", pre("core."))
+	share("C12", "", "C12.10", "the global heap writer", pre("hdf5.globalHeap", "hdf5.encodeVLen", "hdf5.encodeString", "hdf5.DatasetWriter.writeVLen"))
+	share("C13", "C13.10", "C13.11", "the chunk writer and the chunk index", pre("hdf5.DatasetWriter.writeChunk", "hdf5.expandEdgeChunk", "hdf5.DatasetWriter.Resize", "structures.ChunkBTree", "structures.serializeChunkBTreeNode", "writer.Chunk", "hdf5.ChunkCoordinator", "writer.ChunkCoordinator"))
+	share("C14", "C14.10", "C14.11", "the writable name index (B-tree v2)", pre("structures.WritableBTreeV2", "structures.insertRecordSorted", "structures.jenkinsHash"))
+	share("C15", "", "C15.9", "the writable fractal heap", pre("structures.WritableFractalHeap", "structures.WritableIndirectBlock", "structures.WritableDirectBlock"))
 }
